@@ -473,6 +473,74 @@ pub fn join_attempt(rng: &mut Rng, h: &mut Hist, accept_pct: u64) -> bool {
     }
 }
 
+/// Dynamic plans: a channel mask that is non-empty but names no DEFINED channel. Variant 0/1 (ABP):
+/// NewChannelReq defines channel `a`, a LinkADRReq block (ChMaskCntl 0) enables only `a` and a
+/// never-defined `b` (variant 1: only `a`), a NewChannelReq with frequency 0 removes `a`, then the
+/// device must still transmit. Variant 2 (OTAA): a CFList defines the channels, a LinkADRReq enables
+/// one of them and an undefined one, a re-join's CFList carries 0 in that entry. After each step
+/// there are uplinks: the channel selection must neither spin nor use an undefined channel.
+pub fn stale_mask_history(suite: &str, rng: &mut Rng, region: &str, variant: usize) -> String {
+    let nd = crate::oracle::num_default_channels(region) as u8;
+    let (lo, _) = band(region);
+    let mut h = Hist::new(suite, region, 20, 0, rng.next() % 1000, &[], None);
+    h.go_live();
+    let a = nd + rng.below((16 - nd) as u64) as u8;
+    let mut b = nd + rng.below((16 - nd) as u64) as u8;
+    if b == a {
+        b = if a == 15 { nd } else { a + 1 };
+    }
+    let f = |k: u32| lo + 200_000 + 200_000 * k;
+    if variant < 2 {
+        h.abp();
+        h.send(1, false, &[1]);
+        h.rx_auth("rx1", 0, 1, false, &new_channel_req(a, f(a as u32), 0x50), None, &[]);
+        h.snap();
+        let mask: u16 = if variant == 0 { (1 << a) | (1 << b) } else { 1 << a };
+        h.send(1, false, &[2]);
+        h.rx_auth("rx1", 0, 1, false, &link_adr_req(0, 0, mask, 0, 1), None, &[]);
+        h.snap();
+        h.send(1, false, &[3]);
+        h.rx_auth(if rng.chance(1, 2) { "rx1" } else { "rx2" }, 0, 1, false, &new_channel_req(a, 0, 0), None, &[]);
+        h.snap();
+    } else {
+        let root = h.root;
+        let first = nd; // CFList entries define channels nd..nd+5
+        let c = first + rng.below(5) as u8;
+        let mut fr = [0u32; 5];
+        for (i, x) in fr.iter_mut().enumerate() {
+            *x = f(i as u32 + 1);
+        }
+        h.ev("otaa");
+        let acc = build_join_accept(&root, 0x01000001, 0, 1, &CfDesc::Dynamic(fr));
+        h.rx_bytes("rx1", 5, &acc, None);
+        h.devaddr = 0x01000001;
+        h.last_down = None;
+        h.snap();
+        let other = if c == first { first + 6 } else { c - 1 + 6 }.min(15);
+        let mask: u16 = (1 << c) | if rng.chance(1, 2) { 1 << other } else { 0 };
+        h.send(1, false, &[2]);
+        h.rx_auth("rx1", 0, 1, false, &link_adr_req(0, 0, mask, 0, 1), None, &[]);
+        h.snap();
+        h.send(1, false, &[3]).timeout();
+        // re-join: the CFList now carries 0 where channel `c` was
+        fr[(c - first) as usize] = 0;
+        h.ev("otaa");
+        let acc = build_join_accept(&root, 0x01000002, 0, 1, &CfDesc::Dynamic(fr));
+        h.rx_bytes("rx1", 5, &acc, None);
+        h.devaddr = 0x01000002;
+        h.last_down = None;
+        h.snap();
+    }
+    for i in 0..3u8 {
+        if h.dead {
+            break;
+        }
+        h.send(1, false, &[0x40 + i]).timeout();
+    }
+    h.snap();
+    h.done()
+}
+
 /// A long run of unanswered join attempts (the join walk over all banks of a fixed plan, with and
 /// without a bias of several tries; dynamic plans walk their join channels), optionally interleaved
 /// with a data uplink of an earlier ABP session: the walk's book-keeping must never run dry.
